@@ -657,7 +657,8 @@ class DataSelect(BaseService):
     @property
     def v(self):
         if self._v is None:
-            self._v = [v1 if v1 is not None and not np.isnan(v1)
+            # an index may be a string; only a float can be NaN
+            self._v = [v1 if v1 is not None and not (isinstance(v1, (float, np.floating)) and np.isnan(v1))
                        else v2
                        for v1, v2 in zip(self.optional.v, self.fallback.v)]
 
